@@ -126,6 +126,36 @@ def s3(led, rid, ctx):
                   "outside a user brancher — stays unassigned and the returned Solution has no value for it")
 
 
+def s3c(led, rid, ctx):
+    """the scan that backs S3b looks at every domain: between get_domains() and the search for an
+    unassigned one there is no adaptor that leaves domains out (skip / take / step_by / …) — a
+    resumed scan is only right if every way of unfixing a variable resets the resume point, which
+    the conflict-analysis backjump (an associated function without access to the solver's fields)
+    cannot do"""
+    lib = ctx.lib
+    m = lib.method("ConstraintSatisfactionSolver", "make_next_decision")
+    OUT = ("skip", "take", "step_by", "skip_while", "take_while", "nth", "last", "rev_skip", "filter", "filter_map")
+    n = 0
+    for g in m.with_closures():
+        R = None
+        for c in g.calls:
+            if c.name not in ("find", "any", "all", "position", "find_map", "next", "try_fold", "fold") or not c.args:
+                continue
+            R = R or resolver(g)
+            e = R.operand(c.args[0])
+            names = [x.a.name for x in e.walk() if x.k == "call"]
+            if "get_domains" not in names:
+                continue
+            n += 1
+            bad = [x for x in names if x in OUT]
+            led.check(not bad, rid, "S3c:scan-covers-all-domains", c.span, " → ".join(reversed(names)) + " → " + c.name,
+                      "the scan for a variable the brancher left unfixed passes the domains through `%s`: domains "
+                      "that are left out are taken to be fixed, and after a backjump that unfixes one of them a "
+                      "partial assignment is declared a solution" % ", ".join(bad))
+    # a loop form of the scan: an index loop over the domains must start at zero
+    led.floor(rid, "scans over get_domains() in make_next_decision", n, 1)
+
+
 def s4(led, rid, ctx):
     lib = ctx.lib
     up = lib.method("ConstraintSatisfactionSolver", "declare_new_decision_level")
@@ -576,6 +606,7 @@ def _u5b(led, rid, ctx):
     from . import C09 as _C09
     run_rule(led, "S15", "LINFORM: the arithmetic constraint builders mean what they say (shared with C09-R10)", _C09.r10, ctx)
     run_rule(led, "S16", "PAIR-LOOP: all_different posts x_i != x_j for every pair i < j", s16, ctx)
+    run_rule(led, "S3c", "the fallback scan for unfixed variables covers every domain (no resumed / partial scan)", s3c, ctx)
     run_rule(led, "S17", "backtrack resets the notified-trail mark", s17, ctx)
     run_rule(led, "S19", "API-FORWARD: each public variable constructor reaches exactly one engine constructor", s19, ctx)
     run_rule(led, "S18", "MUST-PASS: no path of a Constraint::post / implied_by returns Ok(()) without posting", s18, ctx)
